@@ -3,6 +3,9 @@
 package hx
 
 import (
+	"github.com/goghcrow/yae/trans"
+	"github.com/goghcrow/yae/parser/ast"
+	"github.com/goghcrow/yae/conv"
 	"github.com/goghcrow/yae/types"
 	"github.com/goghcrow/yae/val"
 	"github.com/goghcrow/yae/zzverif/sv"
@@ -260,6 +263,84 @@ func H01_step() {
 			why := RefWellTyped(res[b], t)
 			if why != "" {
 				sv.Logf("%s: %s : %s yields %s", BackendNames[b], p.src, t.String(), why)
+			}
+			sv.Assert("result-has-inferred-type:"+BackendNames[b], why == "")
+		}
+	}
+	sv.Reach("accepted")
+}
+
+type hItem struct {
+	Name string  `yae:"name"`
+	Note *string `yae:"note"`
+	Tags []int   `yae:"tags"`
+}
+
+// H01_host: preservation over host-supplied data. Slices, arrays and maps of
+// structs whose nil-able fields are set in some elements and nil in others
+// either fail to convert (inconsistent data) or, once an expression over them
+// is accepted, yield values every component of which has the type its
+// container declares - on every back end, for every iteration order.
+func H01_host() {
+	e := Eng()
+	s1, s2 := "n1", "n2"
+	mk := func(k int) hItem {
+		switch k {
+		case 0:
+			return hItem{"a", &s1, []int{1}}
+		case 1:
+			return hItem{"b", nil, []int{2}}
+		case 2:
+			return hItem{"c", &s2, nil}
+		default:
+			return hItem{"d", nil, nil}
+		}
+	}
+	i0, i1 := sv.Choice("item0", 4), sv.Choice("item1", 4)
+	var host interface{}
+	switch sv.Choice("container", 3) {
+	case 0:
+		host = map[string]interface{}{"items": []hItem{mk(i0), mk(i1)}}
+	case 1:
+		host = map[string]interface{}{"items": [2]hItem{mk(i0), mk(i1)}}
+	default:
+		host = map[string]interface{}{"items": map[string]hItem{"x": mk(i0), "y": mk(i1)}}
+	}
+	srcs := []string{"items", "[items]", "{f: items}"}
+	src := srcs[sv.Choice("prog", len(srcs))]
+	sv.MapOrder(1)
+	var tenv *types.Env
+	var venv *val.Env
+	var e1, e2 error
+	cls := sv.Outcome(func() {
+		tenv, e1 = conv.TypeEnvOf(host)
+		venv, e2 = conv.ValEnvOf(host)
+	})
+	sv.MapOrder(0)
+	sv.Assert("conversion-does-not-panic", cls == "ok")
+	if cls != "ok" || e1 != nil || e2 != nil {
+		sv.Reach("rejected-as-inconsistent-data")
+		return
+	}
+	var expr ast.Expr
+	var ty *types.Type
+	fcls := sv.Outcome(func() {
+		expr = trans.Desugar(e.Parse(src))
+		ty = types.Check(expr, tenv.Inherit(e.TyEnv))
+	})
+	if fcls != "ok" {
+		sv.Reach("rejected-at-compile-time")
+		return
+	}
+	for b := 0; b < NBackends; b++ {
+		bb := b
+		var r *val.Val
+		c := sv.Outcome(func() { r = Backend(bb)(expr, e.Rt)(venv.Inherit(e.Rt)) })
+		sv.Assert("no-mis-typed-access:"+BackendNames[b], c != "cast" && c != "rt:nil" && c != "rt:typeassert")
+		if c == "ok" {
+			why := RefWellTyped(r, ty)
+			if why != "" {
+				sv.Logf("%s: %s : %s yields %s", BackendNames[b], src, ty.String(), why)
 			}
 			sv.Assert("result-has-inferred-type:"+BackendNames[b], why == "")
 		}
